@@ -5,6 +5,12 @@ ROOT = os.path.dirname(os.path.dirname(os.path.abspath(__file__)))
 
 # id -> (technique, level text, level note, design ref)
 CLAIMED = {
+ "C18": ("proptest over generated declarations (programs) in both macro syntaxes: in-process run of the macro's own source + syn-based interpretation of the generated tables, systematic one-edit broken declarations, and a compiled batch through the real proc-macros and rustc checked by a generic run-time driver",
+         "4 000 valid + 8 000 broken declarations in-process (quick; 150 000 + 300 000 thorough): both front ends succeed with token-identical output whose tables equal the declaration plus Crc32/Void/RawTag; each of 13 kinds of broken declaration is rejected. 1 (quick) / 8 (thorough) batches of 24 declarations are compiled through #[ebml_specification] and easy_ebml! and every trait function is checked for declared and probe ids, every accessor, raw tags, and iterator/writer use; 2 / 6 crates with an unknown attribute on a variant must fail to compile.",
+         "trusted: syn parse of the generated code; the declaration table emitted next to each compiled declaration; rustc", "4.18"),
+ "C20": ("proptest over (input, async read partition, Poll::Pending pattern, buffered set) with a harness-owned scripted AsyncRead on block_on; differential oracle against the blocking iterator",
+         "30 000 (quick) / 800 000 (thorough) schedules: single-read, constructed multi-read partitions in which every call's tag has been delivered, inputs > 64 KiB, Pending before any read; items, offsets, first error and termination must equal the blocking iterator; next() and into_stream() both driven. The schedules of open finding D14 (a call made before its tag's bytes arrived) are excluded by construction and counted, the pinned input is replayed and reported as KNOWN-FINDING on every run.",
+         "weak where the open finding's class is excluded: catches a broken read path, offset plumbing, double termination, lost/duplicated reads, but not further defects confined to straddling schedules", "4.20"),
  "C02": ("proptest over accepted byte streams (canonical, non-canonical reference encodings, structure-aware and blind mutations); fixpoint oracle read(write(read(b))) == read(b)",
          "60 000 (quick) / 2 M (thorough) generated streams; those the strict reader accepts from a root element (acceptance rate of mutated streams measured, gate >= 10%) are re-written item by item through TagWriter::write (every call must be Ok) and re-read; the two item sequences must be identical (floats by bits).",
          "trusted: nothing beyond the harness drivers; rejected streams are outside the property", "4.2"),
@@ -60,7 +66,7 @@ CLAIMED = {
          "All slices of length <= 2 (quick) / <= 3 (thorough), a bit lattice for lengths 3..9 and random slices are decoded by arr_to_u64/i64/f64 and by reference decoders; boundary and random u64/i64/f64 values are written through TagWriter, the payload located with the reference header parser, its width checked against the minimal 1/2/4/8 rule and decoded by library, reference and iterator.",
          "trusted: reference decoders (from_be_bytes based) and reference header parser", "4.16"),
 }
-TODO_REASON = "check not built yet in this round (planned in DESIGN.md section 4; property-based testing applies)"
+TODO_REASON = "not claimed"
 ALL = ["C%02d" % i for i in range(1, 21)]
 
 def main():
